@@ -15,18 +15,22 @@ LEVEL = "exploration"
 RULE = ("scenario = history of 2..6 connections; each response carries 0..2 Set-Cookie lines (names/values over small "
         "alphabets) with one Domain per response (upper/lower case, with/without leading dot) or none; targets inside, "
         "outside and look-alike to the domains; a response may also set a cookie whose own line names no Domain; names whose "
-        "'name=value' text sorts unlike the name; quoted values containing '; ' and escaped CR LF; optional caller cookie.  The process-wide jar is emptied before each "
+        "'name=value' text sorts unlike the name; quoted values containing '; ' and escaped CR LF; optional caller cookie (also "
+        "one whose text is part of a stored pair) and Host-header override; targets that differ from a domain only in the character "
+        "standing where the domain has a dot.  The process-wide jar is emptied before each "
         "history.  Oracle = reference jar (domain -> name -> value, only cookies whose response named a Domain, latest "
         "value wins) -> expected Cookie header = name-sorted applicable cookies then the caller's cookie; compared with "
         "the Cookie header each peer parsed.  Enumerated completely: every (setting domain form, target host) pair over "
-        "8 domain forms x 10 hosts, one cookie.  non-trivial = at least one stored cookie and a later connection; "
+        "8 domain forms x 14 hosts, one cookie.  non-trivial = at least one stored cookie and a later connection; "
         "distinct = (per step: domain form class, number of cookies, target relation inside/outside/look-alike/"
         "sub-domain, caller cookie?)")
 ASSUMPTIONS = ["a quoted value is replayed in the quoted form in which it was set",
                "a name is never set under two different domains that both cover one target (the property does not say which wins)"]
 
 HOSTS = ["example.test", "www.example.test", "a.b.example.test", "notexample.test", "example.test.evil.test",
-         "xexample.test", "other.test", "sub.other.test", "test", "EXAMPLE.test"]
+         "xexample.test", "other.test", "sub.other.test", "test", "EXAMPLE.test",
+         # a dot of a cookie domain replaced by another character (a '.' taken as a wildcard would match these)
+         "example-test", "wwwxexample.test", "sub.other-test", "b-example.test"]
 DOMAINS = ["example.test", ".example.test", "EXAMPLE.TEST", ".Example.Test", "www.example.test", "other.test", ".OTHER.test",
            "b.example.test"]
 NAMES = ["a", "b", "c", "sid", "tok", "id", "id2", "id-b", "a.b", "a+"]  # incl. names whose "name=value" text sorts unlike the name
@@ -75,7 +79,7 @@ def gen(rng):
     owner = {}  # name -> canonical domain that owns it in this history
     for _ in range(rng.randrange(2, 7)):
         host = rng.choice(HOSTS)
-        st = {"host": host, "set": [], "domain": None, "cookie": rng.choice((None, None, "me=1", "u=7; w=8"))}
+        st = {"host": host, "set": [], "domain": None, "cookie": rng.choice((None, None, "me=1", "u=7; w=8", "id=1", "d=2", "a=1", "c=v"))}
         if rng.random() < 0.7:
             d = rng.choice(DOMAINS) if rng.random() < 0.85 else None
             for _c in range(rng.randrange(1, 3)):
@@ -94,6 +98,9 @@ def gen(rng):
                     owner[nm] = canon(d)
                     st["set"].append([nm, rng.choice(VALUES[:5]), "nodomain"])
             st["domain"] = d
+        if rng.random() < 0.15:
+            # the caller overrides the Host header; the jar is still consulted for the host the connection goes to
+            st["host_opt"] = rng.choice(HOSTS[:10]) + rng.choice(("", ":8080"))
         if rng.random() < 0.2:
             # this step's server answers with a redirect (its own Set-Cookie lines ride on the 3xx) to another host
             st["redirect_to"] = rng.choice([h for h in HOSTS if h.lower() != host.lower()])
@@ -115,6 +122,8 @@ def run(sc, choices=None):
                 raise InvalidScenario("redirect_to")
             if st.get("domain") is not None and st["domain"] not in DOMAINS:
                 raise InvalidScenario("domain")
+            if st.get("host_opt") is not None and st["host_opt"].split(":")[0] not in HOSTS:
+                raise InvalidScenario("host_opt")
             names = [x[0] for x in st.get("set", ())]
             if len(set(names)) != len(names) or any(n not in NAMES for n in names):
                 raise InvalidScenario("names")
@@ -171,6 +180,8 @@ def run(sc, choices=None):
                 kw = {}
                 if st.get("cookie"):
                     kw["cookie"] = st["cookie"]
+                if st.get("host_opt"):
+                    kw["host"] = st["host_opt"]
                 c = ws.create_connection(f"ws://{st['host']}/", timeout=3, **kw)
                 c.close(timeout=1)
                 outcomes.append("ok")
@@ -226,7 +237,7 @@ def run(sc, choices=None):
             res.violate(clause, cctx, f"step {i} to {host}: Cookie header {got}, expected {want!r}; history "
                         f"{[(s['host'], s.get('domain'), s.get('set')) for s in steps[:i]]}")
             break
-        sig.append((_dform(st.get("domain")), len(st.get("set", ())), rel, bool(st.get("cookie")), bool(st.get("redirect_to")) and stores))
+        sig.append((_dform(st.get("domain")), len(st.get("set", ())), rel, bool(st.get("cookie")), bool(st.get("redirect_to")) and stores, bool(st.get("host_opt"))))
         if stores and st.get("redirect_to"):
             res.probes["set_cookie_on_redirect"] = 1
         if stores and st.get("domain") is not None and st.get("set"):
